@@ -125,6 +125,10 @@ Definition call_b64decode (W : pyworld) : parser :=
 Record tmsg := mkTMsg { tm_labels : dict lval; tm_types : option (dict N) }.
 (*  self.labels[k] = v *)
 Definition tmsg_setitem_labels (m : tmsg) (k : key) (v : lval) : tmsg := mkTMsg (dset k v (tm_labels m)) (tm_types m).
+(*  self.labels = d *)
+Definition tmsg_set_labels (m : tmsg) (d : dict lval) : tmsg := mkTMsg d (tm_types m).
+(*  d[k] = v  on a dict under construction ({k: v for ...}) *)
+Definition dict_setitem {A} (d : dict A) (k : key) (v : A) : dict A := dset k v d.
 (* the statement monad PyStm.v without observable effects; which exception propagates is not modelled (Labels.v: None) *)
 Definition LM (A : Type) : Type := M Empty_set unit A.
 (*  `except Exception`: everything that is raised here (ValueError, KeyError, TypeError, binascii.Error, ...) is one *)
